@@ -28,6 +28,11 @@ CANARIES = [
     ('fft_cache', 'S', r'FftDirection::Forward => self\.forward_cache\.insert\(len, cloned\)', 'FftDirection::Forward => self.inverse_cache.insert(len, cloned)', 'insert'),
     ('math_utils', 'S', r'let mut divisor = 5;', 'let mut divisor = 7;', 'compute'),
     ('math_utils', 'S', r'divisor \+= 2;', 'divisor += 4;', 'compute'),
+    ('math_utils', 'S', r'first_factor\.count -= half_factor\.count;', '', 'partition_factors'),
+    ('math_utils', 'S', r'this\.total_factor_count /= 2;', '', 'partition_factors'),
+    ('math_utils', 'S', r'right_product <<= this\.power_two;', 'right_product <<= this.power_three;', 'partition_factors'),
+    ('plan_scalar', 'S', r'if \*left \* right == len && verif_contains', 'if verif_contains', 'design_butterfly_product'),
+    ('plan_scalar', 'S', r'if gcd\(left_len, right_len\) == 1 \{', 'if gcd(left_len, right_len) != 1 {', 'design_butterfly_product'),
     ('plan_scalar', 'S', r'if len < 2 \{', 'if len < 3 {', 'design_fft_for_len'),
     ('plan_scalar', 'S', r'let min_inner_len = 2 \* len - 1;', 'let min_inner_len = 2 * len - 2;', 'design_prime'),
     ('plan_scalar', 'S', r'verif_assert\(p2 > 5\);([^\n]*)\n(\s*)if p2 % 2 == 1 \{\s*8', r'verif_assert(p2 > 5);\1\n\2if p2 % 2 == 0 {\n 8', 'design_radixn'),
